@@ -36,6 +36,12 @@ def run(ctx, replay):
             for h in hs:
                 n += 1
                 scen.append(synccommon.to_scenario(n, h, np))
+        # directed: what one recomputation pass meets (several entities pending, computed days before / between / after)
+        hs = ctx.generate(D, "Gen_DailyLog", "SPECIFICATION Spec\nINVARIANT Emit\nCHECK_DEADLOCK FALSE\n", "passes", workers=1, timeout=1500,
+                          limit=160 if quick else 5000)
+        for h in hs:
+            n += 1
+            scen.append(synccommon.to_scenario(n, h, 2))
     sp = ctx.write_scenarios(scen)
     tp = os.path.join(ctx.work, "trace.ndjson")
     ctx.dv_world(sp, tp)
